@@ -706,6 +706,10 @@ func (c *goExprGen) gen(e *Expr) (string, string, bool) {
 			return "", "", false
 		}
 		t := c.typeOfRaw(e.Args[0])
+		if t == nil {
+			c.why = "index into a value of unknown type"
+			return "", "", false
+		}
 		if sl, ok := t.Underlying().(*types.Slice); ok {
 			return c.wrapVal(fmt.Sprintf("%s[int(%s.Int64())]", a, i), sl.Elem())
 		}
